@@ -124,6 +124,12 @@ func (fs *findings) report(c *core.Ctx) {
 	}
 }
 
+// chaosMC: the misuse scripts of Chaos.tla must each end in exactly their runtime panic.
+func chaosMC() mcRun {
+	return mcRun{name: "chaos: every runtime panic of GoChan is reached by its misuse script", workers: 1,
+		cfgText: "SPECIFICATION MCSpec\nCONSTANTS\n  Combs = {\"chaos\"}\n  MaxInputs = 0\n  MaxItems = 0\n  MaxCap = 0\nINVARIANTS ChaosPanics ChaosNoEarlyPanic CanStepIsEnabled\nCHECK_DEADLOCK FALSE\n"}
+}
+
 // runMC model-checks the combinator modules.
 func runMC(c *core.Ctx, runs []mcRun) (states, trans int, details []map[string]interface{}, err error) {
 	type out struct {
